@@ -127,3 +127,144 @@ Proof.
 Qed.
 
 End J.
+
+(** * the history of one channel inside a joint history *)
+
+Section Hist.
+Variable warn : tag -> bool.
+Variable prof : profile.
+
+(** the history channel [ch] of a joint history went through, from the stub *)
+Definition chan_history nch mf mp (jops : list jop) (ch : N) : list op :=
+  boot ++ jrun_cops warn prof nch mf mp ch (jinit warn prof) jops.
+
+(** histories short enough for the counters to stay below 2^64 (as [short] in C01) *)
+Definition jshort (nch : nat) (jops : list jop) : Prop :=
+  2 * N.of_nat (4 + (1 + nch) * length jops) + 4 <= U64MAX.
+
+Lemma boot_wf : Forall wf_op boot.
+Proof. repeat constructor; cbv; discriminate. Qed.
+
+Lemma chan_history_spec nch mf mp jops ch :
+  jc (jrun warn prof nch mf mp (jinit warn prof) jops) ch =
+  grun warn prof (Stub, ghost0) (chan_history nch mf mp jops ch).
+Proof. unfold chan_history. rewrite jrun_chan, grun_app. reflexivity. Qed.
+
+Lemma chan_history_wf nch mf mp jops ch :
+  Forall jwf jops -> jshort nch jops ->
+  Forall wf_op (chan_history nch mf mp jops ch) /\ short (chan_history nch mf mp jops ch).
+Proof.
+  intros Hwf Hs. destruct (jrun_cops_wf warn prof nch mf mp jops (jinit warn prof) ch Hwf) as [W L].
+  split; [apply Forall_app; split; [exact boot_wf | exact W]|].
+  unfold short, chan_history, jshort in *. rewrite app_length. cbn [boot length].
+  lia.
+Qed.
+
+End Hist.
+
+(** * what only the joint model can say: a revocation advances a channel only under a payment
+      check that passes on the ledger as it is at that moment *)
+
+Section Cross.
+Variable warn : tag -> bool.
+Variable prof : profile.
+(* the filter may downgrade any tag except the four the holder-side invariant rests on *)
+Hypothesis W1 : warn TRevokeNewSigned = false.
+Hypothesis W2 : warn TRevokeNotClosed = false.
+Hypothesis W3 : warn THolderNotRevoked = false.
+Hypothesis W4 : warn TOther = false.
+
+Definition slot_durable (s : slot) : Prop :=
+  match s with Stub => True | Ready ch => mem ch = disk ch end.
+
+(** a revocation request whose payment verdict is negative leaves the holder counter alone *)
+Lemma revoke_unpaid_keeps sl n :
+  slot_durable sl ->
+  slot_next_h (fst (step warn prof sl (Revoke n false))) = slot_next_h sl /\
+  slot_durable (fst (step warn prof sl (Revoke n false))).
+Proof.
+  intros Hd. destruct sl as [|ch]; [split; [reflexivity | exact I]|].
+  unfold step. cbn [step0 on_ready].
+  assert (E : fst (do_revoke warn prof ch n false) = ch).
+  { unfold do_revoke. destruct (negb (n =? next_h (mem ch))); [reflexivity|].
+    destruct (closed (mem ch) && perr warn TRevokeNotClosed); [reflexivity|].
+    destruct (nxt_h (mem ch)); [reflexivity|].
+    destruct (perr warn TRevokeNewSigned); [reflexivity|].
+    destruct (point_ok (mem ch) n); reflexivity. }
+  destruct (do_revoke warn prof ch n false) as [ch' r]. cbn [fst] in E. subst ch'.
+  cbn [slot_durable] in Hd.
+  destruct (st r); cbn [fst crash slot_next_h slot_durable mem disk]; split; try reflexivity; try exact Hd.
+  rewrite Hd. reflexivity.
+Qed.
+
+Lemma restart_keeps sl :
+  slot_durable sl -> slot_next_h (fst (step warn prof sl Restart)) = slot_next_h sl.
+Proof.
+  intros Hd. destruct sl as [|ch]; [reflexivity|]. unfold step. cbn [step0 st ok0 fst slot_next_h mem].
+  cbn [slot_durable] in Hd. rewrite Hd. reflexivity.
+Qed.
+
+Lemma gstep_slot sg o : fst (fst (gstep warn prof sg o)) = fst (step warn prof (fst sg) o).
+Proof. destruct sg as [s g]. rewrite gstep_unfold. cbn [fst]. destruct (step warn prof s o) as [s0 o0]. reflexivity. Qed.
+
+(** in every reachable joint state the memory image of every channel is its persisted image *)
+Lemma joint_durable nch mf mp jops ch :
+  Forall jwf jops -> jshort nch jops ->
+  slot_durable (fst (jc (jrun warn prof nch mf mp (jinit warn prof) jops) ch)).
+Proof.
+  intros Hwf Hs. rewrite (chan_history_spec warn prof).
+  destruct (chan_history_wf warn prof nch mf mp jops ch Hwf Hs) as [W S].
+  pose proof (reach_inv warn prof W1 W2 W3 W4 _ W S) as H. unfold reach in H.
+  destruct (fst (grun warn prof (Stub, ghost0) (chan_history warn prof nch mf mp jops ch))) as [|c]; [exact I|].
+  cbn [HSInv] in H. exact (proj1 H).
+Qed.
+
+Lemma ops_for_one ch o : ops_for ch [(ch, o)] = [o].
+Proof. unfold ops_for. cbn [filter fst]. rewrite N.eqb_refl. reflexivity. Qed.
+
+Lemma ops_for_restart_all ch l :
+  ops_for ch (map (fun c => (c, Restart)) l) = repeat Restart (length (ops_for ch (map (fun c => (c, Restart)) l))).
+Proof.
+  unfold ops_for. induction l as [|c l IH]; [reflexivity|].
+  cbn [map filter fst]. destruct (c =? ch); cbn [map snd length repeat]; [f_equal|]; exact IH.
+Qed.
+
+Lemma restarts_keep k : forall sg,
+  slot_durable (fst sg) ->
+  slot_next_h (fst (grun warn prof sg (repeat Restart k))) = slot_next_h (fst sg).
+Proof.
+  induction k as [|k IH]; intros sg Hd; cbn [repeat grun]; [reflexivity|].
+  rewrite IH.
+  - rewrite gstep_slot. apply restart_keeps; exact Hd.
+  - rewrite gstep_slot. destruct (fst sg) as [|c]; [exact I|].
+    unfold step. cbn [step0 st ok0 fst slot_durable mem disk]. reflexivity.
+Qed.
+
+(** a revocation moves the holder counter of a channel only when the node-wide payment check
+    accepts, on the ledger as it is at that moment, the HTLCs of the commitment that becomes
+    current *)
+Theorem revoke_needs_payment_check nch mf mp jops ch n c :
+  Forall jwf jops -> jshort nch jops ->
+  let s := jrun warn prof nch mf mp (jinit warn prof) jops in
+  let s' := fst (jstep warn prof nch mf mp s (JRevoke ch n)) in
+  slot_next_h (fst (jc s' ch)) <> slot_next_h (fst (jc s ch)) ->
+  P.hnxt (P.chans (jp s) ch) = Some c ->
+  P.validate_payments nch mf mp (jp s) ch (Some c) None = true.
+Proof.
+  intros Hwf Hs s s' Hadv Hn. subst s'.
+  pose proof (joint_durable nch mf mp jops ch Hwf Hs) as Hd. fold s in Hd.
+  destruct (P.validate_payments nch mf mp (jp s) ch (Some c) None) eqn:Ev; [reflexivity|].
+  exfalso. apply Hadv. rewrite jstep_jc. cbn [plan]. rewrite Hn, Ev.
+  destruct (negb (P.in_range nch ch)).
+  - cbn [with_crash st refused fst snd ops_for filter map grun]. reflexivity.
+  - set (res := gstep warn prof (jc s ch) (Revoke n false)).
+    destruct (revoke_unpaid_keeps (fst (jc s ch)) n Hd) as [K1 K2].
+    unfold with_crash. cbn [st snd fst].
+    destruct (st (snd res)) eqn:Es; cbn [fst snd].
+    + rewrite ops_for_one. cbn [grun]. fold res. unfold res. rewrite gstep_slot. exact K1.
+    + rewrite ops_for_one. cbn [grun]. fold res. unfold res. rewrite gstep_slot. exact K1.
+    + rewrite ops_for_app, ops_for_one, ops_for_restart_all. cbn [app grun]. fold res.
+      rewrite restarts_keep; unfold res; rewrite gstep_slot; [exact K1 | exact K2].
+Qed.
+
+End Cross.
